@@ -454,6 +454,15 @@ fn op_group(prop: &str, subkeys: bool) -> BoxedStrategy<Vec<Op>> {
                 ]
             })
             .boxed()),
+        // a subkey wraps a payment in a call back into the proxy itself (next to zero to two messages it is
+        // entitled to): whatever the proxy's own standing, the subkey's call is about a message kind nobody
+        // granted it
+        (w.regrant, (who(0, 12, 1, 0, 1), proptest::collection::vec(grantable_msg(), 0..=2))
+            .prop_map(|(by, mut msgs)| {
+                msgs.push(MsgSpec::WasmExecute { to: N_ADDR as u8, payload: vec![], coins: vec![] });
+                vec![Op::Execute { by, msgs, funds: vec![] }]
+            })
+            .boxed()),
         // on the brink: a grant with a time deadline that is not on a whole second, then a block in the deadline's
         // own second, shortly before it (half of the time) or after it, and the subkey spends
         (w.regrant, (any::<u16>(), (0u8..3).prop_map(Den::Ix), 1u128..500, 1u32..1_000_000_000, 1i64..6, 0u32..1_000_000_000, proptest::collection::vec(msg_spec(MsgWeights { send: 1, burn: 0, staking: 0, distr: 0, other: 0 }), 1..=2))
